@@ -534,6 +534,9 @@ func (r *Rng) genValue(t int, lws bool, method string, ms *MsgSpec) string {
 	case 1, 2:
 		return r.NameAddr(lws, false).Text
 	case 3:
+		if r.P(10) { // identifiers built from the blocks the class function tells apart
+			return sigShape(r)
+		}
 		if r.P(12) { // hex / decimal blocks directly before and after an address (the class function cuts the address out)
 			ip := r.Pick("10.0.0.1", "192.168.1.255", "1.2.3.4", "::1", "fe80::1:2", "[2001:db8::1]")
 			return r.RandBytes("0123456789abcdefABCDEF", 0, 9) + r.Pick("", "-", "@", ".", ":") + ip + r.Pick("", "-", "@", ".") + r.RandBytes("0123456789abcdef-", 0, 12)
@@ -725,6 +728,34 @@ func (r *Rng) Msg(o MsgOpts) *MsgSpec {
 	sb.WriteString(body)
 	ms.Text = sb.String()
 	return ms
+}
+
+// sigShape: identifiers made of the blocks the signature's class function distinguishes — hex blocks of 1..16 digits
+// (lower / upper case), decimal blocks, base64 text with '+' '/' and '=' padding in last / second-last position or
+// elsewhere, letters outside the hex range (g..z, G..Z), joined by the separators it counts.
+func sigShape(r *Rng) string {
+	var sb strings.Builder
+	n := 1 + r.N(5)
+	for i := 0; i < n; i++ {
+		if i > 0 {
+			sb.WriteString(r.Pick("-", "-", ".", "@", ":", "_", "+", "/", "=", "*", "|", ""))
+		}
+		switch r.N(6) {
+		case 0:
+			sb.WriteString(r.RandBytes("0123456789abcdef", 1, 16))
+		case 1:
+			sb.WriteString(r.RandBytes("0123456789ABCDEF", 1, 16))
+		case 2:
+			sb.WriteString(r.RandBytes("0123456789", 1, 12))
+		case 3:
+			sb.WriteString(r.RandBytes("ABCDEFGHIJKLMNOPQRSTUVWXYZabcdefghijklmnopqrstuvwxyz0123456789+/", 2, 24) + r.Pick("", "=", "==", "=x"))
+		case 4:
+			sb.WriteString(r.RandBytes("ghijklmnopqrstuvwxyzGHIJKLMNOPQRSTUVWXYZ", 1, 6))
+		default:
+			sb.WriteString(r.RandBytes("0123456789abcdefABCDEFeEfFgG", 7, 9)) // around the "8 consecutive hex digits" threshold
+		}
+	}
+	return sb.String()
 }
 
 // ---------------------------------------------------------------- mutation
